@@ -879,9 +879,19 @@ impl MachineState {
             }
         }
 
-        let end_cell = heap_pstr_iter.heap[heap_pstr_iter.focus()];
+        let focus = heap_pstr_iter.focus();
+        let is_cyclic = heap_pstr_iter.is_cyclic();
+        let end_cell = self.store(self.deref(self.heap[focus]));
 
-        if heap_pstr_iter.is_cyclic() || end_cell != empty_list_as_cell!() {
+        if !is_cyclic {
+            // the partial string may be only the prefix of the list ([a,b|T] with T = [1]):
+            // go on with the ordinary list cells that follow it.
+            if let HeapCellValueTag::Lis = end_cell.get_tag() {
+                return self.try_from_inner_list(chars, end_cell.get_value() as usize, stub_gen, a1);
+            }
+        }
+
+        if is_cyclic || end_cell != empty_list_as_cell!() {
             let err = self.type_error(ValidType::List, a1);
             return Err(self.error_form(err, stub_gen()));
         }
